@@ -47,7 +47,7 @@ func c12SumOfSquares(v *big.Int, n int) bool {
 func TestVerifC12Model(t *testing.T) {
 	r := vkit.Start(t, "C12", "statement-model", 200*time.Second, 900*time.Second)
 	defer r.Finish()
-	r.Rule = "descriptors (sign in {-2..2}, a in {0..5,2^62,2^63-1,2^63,2^63+1,2^64-1}, k in [-12,12] U {+-2^62, 2^63, 2^(Lm+63), 2^(Lm+64)-1, 2^(Lm+64)}, 3 or 4 squares, l_d in {8,Lm,Lm+1}) accepted by ExtractStructure; m in [0,12] for which the relation of the real structure (exp - P*m is a sum of n squares) holds; queries (sign' in {-1,1,0,2}, factor' in {a, a/4, 0,1,4,2^63}, bound' in [-14,14] U {k,(k+2)/4,(k-2)/4}); non-trivial = distinct (descriptor, m in the relation); oracle: ProvenStatement and every ProvesStatement==true are true of m over the integers"
+	r.Rule = "descriptors (sign in {-2..2}, a in {0..5,2^62,2^63-1,2^63,2^63+1,2^64-1}, k in [-12,12] U {+-2^62, 2^63, 2^(Lm+63), 2^(Lm+64)-1, 2^(Lm+64)}, 3 or 4 squares, l_d in {8,Lm,Lm+1}) accepted by ExtractStructure; m in [0,12] for which the relation of the real structure (exp - P*m is a sum of n squares) holds; queries (sign' in {-1,1,0,2}, factor' in {a, a/4, 0,1,4,2^63, a/4+j*2^62 (j=1,2,3: the values whose fourfold wraps around to a), a+2^63}, bound' in [-14,14] U {k,(k+2)/4,(k-2)/4}); non-trivial = distinct (descriptor, m in the relation); oracle: ProvenStatement and every ProvesStatement==true are true of m over the integers"
 	pk := &gabikeys.PublicKey{Params: gabikeys.DefaultSystemParameters[1024]}
 	lm := pk.Params.Lm
 	p2 := func(k uint) *big.Int { return new(big.Int).Lsh(big.NewInt(1), k) }
@@ -118,7 +118,7 @@ func TestVerifC12Model(t *testing.T) {
 							km2 := new(big.Int).Sub(k, big.NewInt(2))
 							bounds = append(bounds, k, kp2.Rsh(kp2, 2), km2.Rsh(km2, 2))
 							for _, qs := range []int{-1, 1, 0, 2} {
-								for _, qf := range []uint{a, a / 4, 0, 1, 4, 1 << 63} {
+								for _, qf := range []uint{a, a / 4, 0, 1, 4, 1 << 63, a/4 + 1<<62, a/4 + 1<<63, a/4 + 3<<62, a + 1<<63} { // incl. the preimages of a under the 64-bit wrap-around of 4*factor'
 									for _, qb := range bounds {
 										r.Eval()
 										if p.ProvesStatement(qs, qf, qb) && !holds(qs, qf, qb) {
